@@ -715,6 +715,42 @@ for s_i in range(3 if Q else 20):
                                        max_abs_diff=float(np.nanmax(np.abs(got - ref))) if got.shape == ref.shape else None))
                     break
 
+# ---- (b0'') the time-shifted wrappers singlefreq_ / multifreq_scat_transfer_functions: the sum over the scatterers of
+#      the unshifted transfer functions (checked above) shifted by the ray-traced delays, with the same switches
+import arim.signal as _signal
+for s_i in range(2 if Q else 12):
+    setup = arimgen.immersion_setup(rng, max_refl=int(rng.integers(0, 2)), wall_points=80, numelements=int(rng.integers(2, 4)),
+                                    numscat=int(rng.integers(1, 4)), attenuation=True)
+    views, probe, block = setup["views"], setup["probe"], setup["block"]
+    ne = probe.numelements
+    tx, rx = (arim.ut.fmc(ne) if rng.random() < 0.5 else arim.ut.hmc(ne))
+    width, a = float(rng.uniform(0.2e-3, 1e-3)), float(rng.uniform(-np.pi, np.pi))
+    f0 = setup["freq"]
+    freq_array = np.array([0.0, 0.5 * f0, f0, 1.5 * f0])
+    obj = _scat2.scat_factory("sdh", block, radius=float(rng.uniform(0.2e-3, 1e-3)))
+    sw = SWITCHES[int(rng.integers(0, 16))]
+    kw = dict(probe_element_width=width, use_directivity=sw[0], use_transrefl=sw[1], use_beamspread=sw[2], use_attenuation=sw[3],
+              scat_angle=a, numangles_for_scat_precomp=int(rng.choice([0, 16])))
+    for which in ("singlefreq", "multifreq"):
+        if which == "singlefreq":
+            got = dict(bim.singlefreq_scat_transfer_functions(views, tx, rx, f0, freq_array, obj, **kw))
+            uns = list(bim.scat_unshifted_transfer_functions(views, tx, rx, f0, obj, **kw))
+        else:
+            got = dict(bim.multifreq_scat_transfer_functions(views, tx, rx, freq_array, obj, **kw))
+            uns = list(bim.scat_unshifted_transfer_functions(views, tx, rx, freq_array, obj, **kw))
+        chk.count(wrapper=which, wrapper_switches=str(sw))
+        for vn, (utf, delays) in zip(views, uns):
+            ref = _signal.timeshift_spectra(utf, delays, freq_array).sum(axis=0)
+            evaluations += ref.size
+            scale = float(np.nanmax(np.abs(ref))) if np.isfinite(ref).any() else 1.0
+            g_ = got.get(vn)
+            if g_ is None or g_.shape != ref.shape or not np.allclose(g_, ref, rtol=1e-10, atol=1e-12 * scale, equal_nan=True):
+                chk.violation(f"pipeline:{which}", f"{which}_scat_transfer_functions(view {vn}) is not the sum over the scatterers of the "
+                              "unshifted transfer functions shifted by the ray delays (same switches)",
+                              dict(view=vn, switches=sw, frequency=f0, freq_array=freq_array, scat_angle=a, width=width, tx=tx, rx=rx,
+                                   numangles_for_scat_precomp=kw["numangles_for_scat_precomp"], probe_locations=probe.locations.coords))
+                break
+
 ncases = 700 if Q else 6000
 a_lines, a_meta = [], []
 coq_cases = []
